@@ -35,13 +35,14 @@ ANCHORS = ['oslo_policy.policy:Enforcer.register_default', 'oslo_policy.policy:E
 REQUIRED_ANCHORS = ['oslo_policy.policy:Enforcer.load_rules']
 BOUNDS = {'quick': dict(L=3, nR=200), 'thorough': dict(L=4, nR=30000)}
 
-NAMES = ['new', 'old', 'same', 'plain', 'zz']
+NAMES = ['new', 'old', 'same', 'plain', 'zz', 'helper']
 ROLES = ['x', 'y', 'z', 'n', 'o', 'p', 'q', 'm']
 ROLESETS = [[r] for r in ROLES] + [['n', 'p'], ['o', 'm'], ['p', 'q'], []]
 OPS = ['load', 'force', 'enforce', 'edit']
 OPS_R = ['load', 'force', 'enforce', 'edit', 'editdir', 'editdir', 'rmmain']
 CONTENTS = [{}, {'new': 'role:x'}, {'old': 'role:y'}, {'same': 'role:z', 'plain': 'role:x'}, {'old': 'rule:new'},
-            {'extra': 'role:x', 'old': 'role:z', 'new': 'role:y'}]
+            {'extra': 'role:x', 'old': 'role:z', 'new': 'role:y'}, {'helper': 'role:x'}, {'helper': 'role:y', 'new': 'role:z'},
+            {'helper': 'role:z'}]
 
 
 NEW_SHAPES = ['role:n', 'role:n or role:q', 'role:n and role:p', 'not role:z', '(role:n or role:x) or role:q', 'role:n or (role:p and role:q)']
@@ -59,9 +60,9 @@ def make_defaults(policy, with_dep, dshape=0):
         dep2 = policy.DeprecatedRule('same', 'role:o or role:m', deprecated_reason='r', deprecated_since='s')
         return [policy.RuleDefault('new', new_cs, deprecated_rule=dep),
                 policy.RuleDefault('same', same_cs, deprecated_rule=dep2, scope_types=['project']),
-                policy.RuleDefault('plain', 'role:p or role:q', description='d')]
+                policy.RuleDefault('plain', 'role:p or rule:helper', description='d')]
     return [policy.RuleDefault('new', new_cs), policy.RuleDefault('same', same_cs),
-            policy.RuleDefault('plain', 'role:p or role:q', description='d')]
+            policy.RuleDefault('plain', 'role:p or rule:helper', description='d')]
 
 
 def shape(check):
